@@ -144,7 +144,10 @@ Proof.
   assert (Hk : 0 <= (b * n + x) * it + j < nb * n * it) by nia.
   rewrite wp_flat_model. split.
   - rewrite wake_offsets_spec, Er. rewrite in_rng_true by exact Hr. reflexivity.
-  - unfold ky_hinfo. fold r. rewrite Er.
+  - (* shape-independent: the generated index is normalised by [ring], whatever its association *)
+    assert (Eh : ky_hinfo (wk_kd n nb) (wk_pd n nb) it (km_lastbunch nb) b x y j = (b * n + x) * it + j).
+    { unfold ky_hinfo. rewrite km_lastbunch_model by lia. rewrite wk_pd_model, ?wk_kd_model. ring. }
+    rewrite Eh.
     rewrite wake_table_spec by (try exact Hk; lia).
     unfold updateSM. rewrite div_lin, mod_lin by lia. reflexivity.
 Qed.
